@@ -40,4 +40,9 @@ def conditions(tier, seed):
                         symbolic=['v0..v2 (B.v)', 'thr'] if tpl.startswith('filter') else [],
                         case_split=['si (link state)', 'i (start instance)'],
                         twin=(tpl in ('a_B', 'a_D', 'subtype', 'filter_gt'))))
+    for tpl in ('a_B', 'setA_B', 'a_B_succ', 'filter_order'):
+        out.append(Cond('nav_rerelate_' + tpl, 'c09_nav.py', dict(template=tpl, rerelate=1), timeout=t,
+                        bound='chain template %s over every valid link state, every R1 link unrelated and related again right after it was made (same links, same order)' % tpl,
+                        symbolic=['v0..v2 (B.v)', 'thr'] if tpl.startswith('filter') else [],
+                        case_split=['si (link state)', 'i (start instance)'], twin=False))
     return out
